@@ -58,10 +58,20 @@ def draw_payload(rng, prog, canon, sig, pnames):
     """(payload base64, expected echoed args [[name, json text]...], arg texts)"""
     if sig == "raw":
         raw = rand_bytes(rng)
+        if rng.random() < 0.4:
+            # raw bytes that happen to be JSON, in particular a JSON string of valid base64: still delivered byte for byte
+            raw = rng.choice([b'"withdraw"', b'"abcd"', b'"QUJD"', b'"AAAA"', b'""', b'{"a":1}', b'[1,2]', b'null', b'"c3Rha2U="', b' "stake" '])
         return b64(raw), [["payload", dumps(b64(raw))]], [dumps(b64(raw))]
     texts, cts = [], []
     for ti in sig:
         t = dumps(prog["types"][ti].gen(rng))
+        if len(sig) == 1 and rng.random() < 0.35:
+            # a one-element array whose element is itself a value of the type (`[[]]` for Vec<Vec<_>>, `[null]` for
+            # Option<Vec<Option<_>>>): indistinguishable from a 1-tuple around the element for a lenient decoder
+            for x in rng.sample(["[]", "null", "[[]]", "[null]"], 4):
+                if "ok" in canon.one(ti, x) and "ok" in canon.one(ti, "[" + x + "]") and canon.one(ti, x)["ok"] != canon.one(ti, "[" + x + "]")["ok"]:
+                    t = "[" + x + "]"
+                    break
         texts.append(t)
         cts.append(canon.one(ti, t)["ok"])
     body = cts[0] if len(cts) == 1 else "[" + ",".join(cts) + "]"
@@ -69,17 +79,8 @@ def draw_payload(rng, prog, canon, sig, pnames):
 
 
 def payload_for_name(r, rng, prog, canon, name, info, pnames):
-    """Payload bytes as the generated builder encodes them, expected echoed args, builder arg texts.
-    For names whose methods disagree on `sv::payload(raw)` the encoding is whatever the builder chooses:
-    it is obtained from the builder itself (only the round trip is pinned)."""
-    if not info.get("mixed_raw"):
-        return draw_payload(rng, prog, canon, info["payload"], pnames)
-    raw = rand_bytes(rng)
-    texts = [dumps(b64(raw))]
-    o = r.call({"prog": prog["name"], "op": f"builder:{name}:wasm", "args": texts,
-                "recv": {"execute": {"contract_addr": "c", "msg": "", "funds": []}}})
-    sm = o["res"]["ok"]
-    return sm["payload"], [["payload", dumps(b64(raw))]], texts
+    """Payload bytes as the statement of C08 predicts them, expected echoed args, builder arg texts."""
+    return draw_payload(rng, prog, canon, info["payload"], pnames)
 
 
 def wellformed_data(rng, prog, canon, m, allow_none=True):
